@@ -921,3 +921,58 @@ def m_embedded_fonts(spec, rng):
 
 
 MUTATORS += [('empty-media-types', m_empty_media_types), ('embedded-fonts', m_embedded_fonts)]
+
+
+# ------------------------------------------------------------------------------------------- round 6 additions
+def object_folders(spec):
+    """the listed object folders of a package spec, at every depth (a folder entry that has its own content.xml/styles.xml)"""
+    listed = set(p for p, _ in spec['manifest'])
+    return [p for p, _ in spec['manifest'] if p and p != u'/' and p.endswith(u'/')
+            and ((p + u'content.xml') in listed or (p + u'styles.xml') in listed)]
+
+
+def m_object_listed_members(spec, rng):
+    """every kind of listed member BELOW an object folder (at every nesting depth): the object's own preview
+    (Thumbnails/ folder entry + Thumbnails/thumbnail.png), further files in that folder, members whose names below the
+    object folder coincide with names that mean something at the top of a package (mimetype, META-INF/manifest.xml,
+    manifest.rdf, layout-cache, Thumbnails/..., Pictures/ folder entry, Basic/..., ObjectReplacements/...), folder entries
+    with and without media type, an empty file, names with blanks / non-ASCII, a file several folders down.  All of them
+    are "other files listed in the manifest": path, media type and bytes have to survive."""
+    folders = object_folders(spec)
+    if not folders:
+        return None
+    man = list(spec['manifest']); mem = list(spec['members'])
+    have = set(p for p, _ in man); names = set(n for n, _ in mem)
+    def blob(lo=1, hi=48):
+        return bytes(bytearray(rng.randrange(256) for _ in range(rng.randint(lo, hi))))
+    for f in folders:
+        png = b'\x89PNG\r\n\x1a\n' + blob()
+        extra = [(f + u'Thumbnails/', rng.choice([u'', u'application/x-folder']), None),
+                 (f + u'Thumbnails/thumbnail.png', rng.choice([u'image/png', u'image/png', u'']), png),
+                 (f + u'Thumbnails/thumbnail 2 é.png', u'image/png', blob()),
+                 (f + u'Thumbnails/deeper/thumbnail.png', u'image/png', blob()),
+                 (f + u'preview/Thumbnails/thumbnail.png', u'image/png', blob()),
+                 (f + u'layout-cache', u'application/binary', blob()),
+                 (f + u'manifest.rdf', u'application/rdf+xml', b'<?xml version="1.0"?>\n<rdf:RDF xmlns:rdf="http://www.w3.org/1999/02/22-rdf-syntax-ns#"/>'),
+                 (f + u'META-INF/manifest.xml', u'text/xml', b'<?xml version="1.0"?>\n<manifest:manifest xmlns:manifest="urn:oasis:names:tc:opendocument:xmlns:manifest:1.0"/>'),
+                 (f + u'Pictures/', u'', None),
+                 (f + u'Basic/', u'', None),
+                 (f + u'Basic/Standard/', u'', None),
+                 (f + u'Basic/Standard/script-lb.xml', u'text/xml', b'<x/>'),
+                 (f + u'ObjectReplacements/', u'', None),
+                 (f + u'ObjectReplacements/Object 1', u'application/x-openoffice-gdimetafile;windows_formatname="GDIMetaFile"', blob()),
+                 (f + u'empty', u'', b''),
+                 (f + u'a/b/c/d.bin', u'application/octet-stream', blob())]
+        # each object gets the preview and a random half of the rest
+        chosen = extra[:2] + [x for x in extra[2:] if rng.random() < 0.5]
+        rng.shuffle(chosen)
+        for p, mt, b in chosen:
+            if p in have or p in names:
+                continue
+            man.insert(rng.randint(0, len(man)), (p, mt)); have.add(p)
+            if b is not None:
+                mem.insert(rng.randint(0, len(mem)), (p, b)); names.add(p)
+    return {'mimetype': spec['mimetype'], 'manifest': man, 'members': mem}
+
+
+MUTATORS += [('object-listed-members', m_object_listed_members)]
